@@ -63,11 +63,47 @@ Definition pow34 (x : F) : F := let r := fsqrt K (fsqrt K x) in r * r * r.
 (* contractions.py:455-461 *)
 Definition norm_prim (l : nat) (c : comp) (alpha : F) : F :=
   let '(ax, ay, az) := c in
-  pow34 ((1 + 1) * alpha / fpi K)
+  fapx K (pow34 ((1 + 1) * alpha / fpi K)
   * fsqrt K (fpow ((1 + 1 + 1 + 1) * alpha) l)
-  / fsqrt K (fdf_odd K ax * fdf_odd K ay * fdf_odd K az).
+  / fsqrt K (fdf_odd K ax * fdf_odd K ay * fdf_odd K az)).
 
 (* ---- shell-pair block ---- *)
+Definition table3 := (list (list (list F)) * list (list (list F)) * list (list (list F)))%type.
+
+Definition prim3 (t : table3) (o ca cb : comp) : F :=
+  let '(tx, ty, tz) := t in
+  let '(ox, oy, oz) := o in let '(ax, ay, az) := ca in let '(bx, by_, bz) := cb in
+  fapx K (nth3 ox bx ax tx * nth3 oy by_ ay ty * nth3 oz bz az tz).
+
+(* norm_prim_cart: (L, K) array, contractions.py:455-461 *)
+Definition norms (s : shell F) : list (list F) :=
+  map (fun c => map (norm_prim (s_l s) c) (s_exps s)) (comps_of s).
+
+(* ---- the contraction shared by every two-index kernel ----
+   [pf ca cb] is the (K_b, K_a) array of primitive integrals for one pair of components;
+   the two tensordots of _cleanup_intermediate_integrals (_moment_int.py:221-239) contract
+   first the primitives of a (with norm_a), then those of b (with norm_b); the result is
+   laid out (M_a, L_a, M_b, L_b). *)
+Section Contract.
+Variables (sa sb : shell F).
+Definition contract_a (P : list (list F)) (na : list F) : list (list F) :=      (* [kb][ma] *)
+  map (fun prow => mk (nseg sa) (fun ma =>
+         fsum (map (fun '(x, (n, crow)) => x * n * nth ma crow 0)
+                   (combine prow (combine na (s_coeffs sa)))))) P.
+Definition contract_b (Q : list (list F)) (nb : list F) : list (list F) :=      (* [ma][mb] *)
+  mk (nseg sa) (fun ma => mk (nseg sb) (fun mb =>
+    fsum (map (fun '(qrow, (n, crow)) => nth ma qrow 0 * n * nth mb crow 0)
+              (combine Q (combine nb (s_coeffs sb)))))).
+Definition block_of (pf : comp -> comp -> list (list F)) : list (list (list (list F))) :=
+  let cas := combine (comps_of sa) (norms sa) in
+  let cbs := combine (comps_of sb) (norms sb) in
+  let mats := map (fun '(ca, na) => map (fun '(cb, nb) =>
+                contract_b (contract_a (pf ca cb) na) nb) cbs) cas in
+  mk (nseg sa) (fun ma => mk (length cas) (fun ia =>
+    mk (nseg sb) (fun mb => mk (length cbs) (fun ib =>
+      nth mb (nth ma (nth ib (nth ia mats []) []) []) 0)))).
+End Contract.
+
 Section Block.
 Variables (Cx Cy Cz : F) (orders : list comp) (sa sb : shell F).
 
@@ -75,21 +111,11 @@ Definition omax : nat :=
   fold_right (fun '(ox, oy, oz) m => Nat.max (Nat.max ox oy) (Nat.max oz m)) 0%nat orders.
 
 (* tables for every primitive pair: [kb][ka] -> (tx, ty, tz) *)
-Definition tabs :=
+Definition tabs : list (list table3) :=
   map (fun beta => map (fun alpha =>
         (table (s_x sa) (s_x sb) Cx alpha beta (s_l sa) (s_l sb) omax,
          table (s_y sa) (s_y sb) Cy alpha beta (s_l sa) (s_l sb) omax,
          table (s_z sa) (s_z sb) Cz alpha beta (s_l sa) (s_l sb) omax)) (s_exps sa)) (s_exps sb).
-
-Definition prim3 (t : list (list (list F)) * list (list (list F)) * list (list (list F)))
-           (o ca cb : comp) : F :=
-  let '(tx, ty, tz) := t in
-  let '(ox, oy, oz) := o in let '(ax, ay, az) := ca in let '(bx, by_, bz) := cb in
-  nth3 ox bx ax tx * nth3 oy by_ ay ty * nth3 oz bz az tz.
-
-(* norm_prim_cart: (L, K) array, contractions.py:455-461 *)
-Definition norms (s : shell F) : list (list F) :=
-  map (fun c => map (norm_prim (s_l s) c) (s_exps s)) (comps_of s).
 
 (* the defining double sum (used as the specification of an entry) *)
 Definition mm_entry (o : comp) (ma : nat) (ca : comp) (mb : nat) (cb : comp) : F :=
@@ -100,27 +126,9 @@ Definition mm_entry (o : comp) (ma : nat) (ca : comp) (mb : nat) (cb : comp) : F
          * norm_prim (s_l sb) cb beta * nth mb crow_b 0)
        (combine (s_exps sb) (combine (s_coeffs sb) tabs))).
 
-(* the two tensordots of _cleanup_intermediate_integrals, for one (order, comp a, comp b):
-   first the primitives of a (with norm_a), then those of b (with norm_b) *)
-Definition contract_a (P : list (list F)) (na : list F) : list (list F) :=      (* [kb][ma] *)
-  map (fun prow => mk (nseg sa) (fun ma =>
-         fsum (map (fun '(x, (n, crow)) => x * n * nth ma crow 0)
-                   (combine prow (combine na (s_coeffs sa)))))) P.
-Definition contract_b (Q : list (list F)) (nb : list F) : list (list F) :=      (* [ma][mb] *)
-  mk (nseg sa) (fun ma => mk (nseg sb) (fun mb =>
-    fsum (map (fun '(qrow, (n, crow)) => nth ma qrow 0 * n * nth mb crow 0)
-              (combine Q (combine nb (s_coeffs sb)))))).
-Definition pair_mat (o ca : comp) (na : list F) (cb : comp) (nb : list F) : list (list F) :=
-  contract_b (contract_a (map (map (fun t => prim3 t o ca cb)) tabs) na) nb.
-
 Definition mm_block : list (list (list (list (list F)))) :=
-  let cas := combine (comps_of sa) (norms sa) in
-  let cbs := combine (comps_of sb) (norms sb) in
-  map (fun o =>
-    let mats := map (fun '(ca, na) => map (fun '(cb, nb) => pair_mat o ca na cb nb) cbs) cas in
-    mk (nseg sa) (fun ma => mk (length cas) (fun ia =>
-      mk (nseg sb) (fun mb => mk (length cbs) (fun ib =>
-        nth mb (nth ma (nth ib (nth ia mats []) []) []) 0))))) orders.
+  let ts := tabs in      (* evaluated once, like the intermediate array of the code *)
+  map (fun o => block_of sa sb (fun ca cb => map (map (fun t => prim3 t o ca cb)) ts)) orders.
 End Block.
 
 (* Overlap.construct_array_contraction without screening (overlap.py:110-126) *)
